@@ -36,7 +36,7 @@ def loop(invariant=(), decreases=(), index="_i", types=None, modifies=None, modi
 class Contract:
     def __init__(self, name, params=None, requires=(), ensures=(), raises=(), returns=None, loops=None, modifies=None,
                  ensures_raise=(), props=(), verify_only=False, site_requires=None, status="proved", cases=None, note="", reify=None,
-                 max_paths=400, target=None, elements_are_keys=False, ghost_entry=None, heavy=False, when=None, modifies_heap=None, clock_reads=0, result_alias=None, ghost_at_calls=None):
+                 max_paths=400, target=None, elements_are_keys=False, ghost_entry=None, heavy=False, when=None, modifies_heap=None, clock_reads=0, result_alias=None, ghost_at_calls=None, inline_calls=None, no_native=False):
         self.name = name
         self.params = params or {}
         self.requires = [requires] if isinstance(requires, str) else list(requires)
@@ -60,6 +60,8 @@ class Contract:
         self.reify = reify
         self.max_paths = max_paths
         self.elements_are_keys = elements_are_keys
+        self.no_native = no_native  # the native (run-time) evaluation of the clauses does not apply (inputs are abstractions)
+        self.inline_calls = set(inline_calls or [])  # callees whose body is executed instead of using their contract
         self.ghost_at_calls = dict(ghost_at_calls or {})  # callee contract name -> {callee ghost parameter: this contract's ghost}
         self.result_alias = list(result_alias or [])  # (condition over the pre-state, parameter): the function returns that argument itself
         self.clock_reads = clock_reads  # how many readings of time.time() the function may take (call sites advance the clock)
